@@ -13,6 +13,7 @@ OPTION = @@OPTION@@
 CLI = @@CLI@@            # command-line flag that sets this option, or None
 L = @@L@@
 EXTRA = @@EXTRA@@        # further command-line arguments always present (another flag of the same run: options must not disturb each other)
+NIN = @@NIN@@            # number of input paths on the command line (every one is documented, in order, with the same settings in effect)
 SFLAG = @@SFLAG@@        # spelling of the settings-file option on the command line: -s | --settings
 FIXB = @@FIXB@@          # argument name -> fixed boolean (shard constants that split large shards)
 hc.quiet_logging()
@@ -60,7 +61,16 @@ class QuietList(list):
 
 cminx.list = QuietList
 captured = []
-cminx.document = lambda input_file, settings: captured.append(settings)
+inputs_seen = []
+
+
+def _rec_document(input_file, settings):
+    inputs_seen.append(input_file)
+    captured.append(settings)
+
+
+cminx.document = _rec_document
+INPUTS = ["in.cmake"] + ["more%d" % i for i in range(1, NIN)]
 import cminx.config as _cfg
 
 
@@ -133,7 +143,8 @@ def check(u_set: bool, s_set: bool, c_set: bool, cps: $$CPS$$, rel_s: bool, rel_
     post: _
     """
     captured.clear()
-    args = ["in.cmake"] + list(EXTRA) + ([SFLAG, SFILE] if use_s else [])          # with and without a -s file on the command line
+    inputs_seen.clear()
+    args = list(INPUTS) + list(EXTRA) + ([SFLAG, SFILE] if use_s else [])          # with and without a -s file on the command line
     if MODE == "wrongtype":
         bad = [1, "yes", ["x"]][kind] if isinstance(DEFAULT_VALUE, bool) else [True, 7, {"a": 1}][kind]
         Env.user = _put(bad) if which == 0 else {}
@@ -171,9 +182,13 @@ def check(u_set: bool, s_set: bool, c_set: bool, cps: $$CPS$$, rel_s: bool, rel_
             args = args + [CLI, cv]
     hc.VSet.rev = False
     cminx.main(args)
-    if len(captured) != 1:
+    if len(captured) != NIN or inputs_seen != INPUTS:
         return hc.report(False, u_set=u_set, s_set=s_set, c_set=c_set, cps=cps, rel_s=rel_s, rel_u=rel_u, which=which, kind=kind, use_s=use_s)
     got = getattr(getattr(captured[0], SECTION), OPTION)
+    for other in captured[1:]:         # every further input is documented under the same value
+        g2 = getattr(getattr(other, SECTION), OPTION)
+        if (list(g2) != list(got)) if isinstance(got, list) else (g2 != got):
+            return hc.report(False, u_set=u_set, s_set=s_set, c_set=c_set, cps=cps, rel_s=rel_s, rel_u=rel_u, which=which, kind=kind, use_s=use_s)
     if MODE == "excl":
         # exclude patterns: the union of the patterns from all sources
         exp = (cv if c_set else []) + (sv if s_set else []) + (uv if u_set else [])
@@ -188,7 +203,7 @@ def check(u_set: bool, s_set: bool, c_set: bool, cps: $$CPS$$, rel_s: bool, rel_
         hc.VSet.rev = True
         cminx.main(args)
         hc.VSet.rev = False
-        ok = len(captured) == 1 and list(getattr(getattr(captured[0], SECTION), OPTION)) == first
+        ok = len(captured) == NIN and list(getattr(getattr(captured[0], SECTION), OPTION)) == first
     elif MODE == "outdir":
         cwd = "/now/cwd"                # the current directory when main() runs, not when cminx was imported
         rel = rel_s or rel_u            # relative_to_config in effect (true in any source that sets it; default false)
